@@ -87,10 +87,10 @@ def run_maxflow(case):
     return {"kind": "maxflow", "n": n, "arcs": case["arcs"], "s": case["s"], "t": case["t"], "events": [ev], "input": case}
 
 
-def _cost_event(fn, r, ids, off=0):
+def _cost_event(fn, r, ids, off=0, limited=True):
     """off: the exact integer every feasible flow's cost was shifted by (families with huge integer costs); the trace carries the
     unshifted small costs, so the subtraction has to be exact - a float objective at that magnitude shows up as a wrong cost"""
-    ev = {"e": "ret", "fn": fn, "status": r.status.name, "flows": [], "cost": 0, "exact": True}
+    ev = {"e": "ret", "fn": fn, "status": r.status.name, "flows": [], "cost": 0, "exact": True, "limited": bool(limited)}
     if r.status.name in ("OPTIMAL", "FEASIBLE"):
         ev["flows"] = _flows(r.solution, ids)
         obj = r.objective
@@ -129,7 +129,7 @@ def run_mincost(case):
     if case["s"] != case["t"]:      # parallel arcs are part of C09's domain for network_simplex too
         try:
             r = network_simplex(n, list(real_arcs), [float(x) for x in supplies] if case.get("float_supplies") else list(supplies))
-            events.append(_cost_event("network_simplex", r, {i: i for i in range(n)}, off))
+            events.append(_cost_event("network_simplex", r, {i: i for i in range(n)}, off, limited=False))
         except Exception as ex:  # noqa: BLE001
             events.append({"e": "raise", "fn": "network_simplex", "what": type(ex).__name__})
         for mi in case.get("ns_max_iters", (0, 1, 2, 4)):       # iteration limits: MAX_ITER / FEASIBLE are fine, a wrong verdict is not
@@ -367,7 +367,7 @@ def run_ns_bulk(case):
         _verif.start()
         try:
             r = network_simplex(c["n"], [tuple(a) for a in c["arcs"]], list(c["supplies"]))
-            ev = _cost_event("network_simplex", r, {k: k for k in range(c["n"])})
+            ev = _cost_event("network_simplex", r, {k: k for k in range(c["n"])}, limited=False)
         except Exception as ex:  # noqa: BLE001
             ev = {"e": "raise", "fn": "network_simplex", "what": type(ex).__name__}
         events, _ = _verif.stop()
@@ -377,7 +377,7 @@ def run_ns_bulk(case):
         longrun = len(piv) >= 6
         cov["enter_from_upper_nondegenerate"] += rare
         cov["pivots>=6"] += longrun
-        if rare or (longrun and rng.random() < 0.3) or rng.random() < 0.01:
+        if rare or (longrun and rng.random() < 0.3) or rng.random() < 0.01 or ev.get("status") in ("MAX_ITER", "FEASIBLE"):
             cov["sampled"] += 1
             kept.append({"kind": "mincost", "n": c["n"], "arcs": c["arcs"], "s": 0, "t": c["n"] - 1, "demand": 0, "supplies": c["supplies"],
                          "events": [ev], "input": c, "coverage": "EnterFromUpper" if rare else ("LongPivotSequence" if longrun else "sample")})
